@@ -99,7 +99,8 @@ static RefLP *make_start (int s)
 
 static mpq_QSprob build_start (int start, const RefLP * M)
 {
-	if (start != 7) return qsx_build (M, start == 3 ? ROUTE_ROWS : ROUTE_LOAD, 0);
+	/* degenerate3x3 and slackrows2x2 are built rows first (non-identity structural map) */
+	if (start != 7) return qsx_build (M, start == 3 ? ROUTE_ROWS : (start == 4 || start == 8) ? ROUTE_COLS : ROUTE_LOAD, 0);
 	static const char *txt = "Maximize\n obj: 3 x + 2 y + 4 z\nSubject To\n c1: 3 x + 2 y + z <= 12\n c2: 5 x + y = 10\nBounds\n 2 <= x\n y free\n 1 <= z <= 10\nInteger\n x z\nEnd\n";
 	FILE *f = fopen ("start7.lp", "w");
 	if (!f) return NULL;
@@ -432,7 +433,9 @@ OUT:
 }
 
 /* ------------------------------------------------------------ family plumbing */
-static int o_depth, o_reduced, o_sandwich;
+static int o_depth, o_reduced, o_sandwich, o_binv, o_verd;
+void c13_check_basis (mpq_QSprob p, const RefLP * L, const char *ctx);
+void c12_check_current_basis (mpq_QSprob p, const RefLP * L, const char *ctx);
 static Trans *alpha; static int nalpha;
 static int step_radix (int i) { return (o_sandwich && (i == 0 || i == o_depth - 1)) ? 4 : nalpha; }   /* sandwich: first and last step are one of the 4 solves */
 static void hist_init (void)
@@ -442,6 +445,8 @@ static void hist_init (void)
 	o_reduced = (int) opt_int ("reduced", 0);
 	alpha = o_reduced ? alpha_red : alpha_full; nalpha = o_reduced ? n_red : n_full;
 	o_sandwich = (int) opt_int ("sandwich", 0);
+	o_binv = (int) opt_int ("binv", 0);      /* after every OPTIMAL solve: B^-1 and tableau rows must multiply back (C13) */
+	o_verd = (int) opt_int ("verd", 0);      /* after every step: the verdict functions on the problem's own basis (C12) */
 	if (opt_int ("printalpha", 0)) { for (int i = 0; i < nalpha; i++) fprintf (stderr, "%d %s#%d\n", i, opdefs[alpha[i].op].name, alpha[i].var); }
 }
 static long hist_count (void) { long c = NSTART; for (int i = 0; i < o_depth; i++) c *= step_radix (i); return c; }
@@ -535,6 +540,8 @@ static void hist_run (long item)
 			} else STAT ("prefix_violation_skipped");
 			stop = 1; break;
 		}
+		if (o_binv && is_solve (seq[i].op) && S.last && !S.last->rval && S.last->status == QS_LP_OPTIMAL && S.M->n + S.M->m <= 30) c13_check_basis (S.p, S.M, S.desc.s);
+		if (o_verd) c12_check_current_basis (S.p, S.M, S.desc.s);
 	}
 	if (!stop) {
 		STAT ("histories");
